@@ -45,7 +45,7 @@ manifest = {
     "hooks": {
         "guard": "verif",
         "enable": "go build -tags verif on a scratch copy of /repo's working tree (./run); the only committed hook is zz_verif_export.go "
-                  "(//go:build verif, exports VerifNewClient); scheduler instrumentation for C15/C17/C09 is generated into the scratch copy "
+                  "(//go:build verif, exports VerifNewClient); scheduler instrumentation (properties with a scheduler plane: C03 C08 C09 C12 C13 C15 C17 C20) is generated into the scratch copy "
                   "by mc/cmd/instrument at check time and never touches /repo",
         "baseline_off_cmd": "cd /repo && GOFLAGS=-mod=mod GOPROXY=off GOSUMDB=off go test -json -vet=off -count=1 -timeout 25m ./...",
         "source_commits": hook_commits(),
